@@ -1,9 +1,380 @@
-//! stub
-use super::Ctx;
-use crate::engine::evidence::{Case, Report, Verdict};
-pub fn run(_ctx: &Ctx, _rep: &mut Report) {
-    crate::engine::monitor::machinery_fail("not implemented");
+//! C05 - ranking never panics on card-or-blank hands; a blank five is Invalid.
+//!
+//! Runs in BOTH build profiles (release: overflow checks off; relchk: overflow checks + debug assertions on).
+//! Spaces
+//!   quick:    all 4,187,106 five-slot multisets over S53 = {52 cards, blank} in 5 orders (canonical, reverse, 3
+//!             rotations: a blank / duplicate visits every slot) x 5 entry points; all six-slot multisets over a
+//!             20-symbol and all seven-slot multisets over a 14-symbol sub-alphabet (x rotations); the public
+//!             product-search helper for EVERY key 0..=104,553,158 (largest product + 1) and boundary keys
+//!   thorough: all 53^5 ordered five-slot arrays; all 40,475,358 six-slot and all 341,149,446 seven-slot multisets
+//!             over S53 with all rotations
+//! Oracle: the monitor (normal return, no hang) plus: a five-slot hand containing a blank has value 0, an
+//! Invalid rank, through every entry point. Values of blank-free hands with repeated cards are not judged.
+use super::hands::AnyHand;
+use super::{confirm_mismatch, sample_json, Ctx};
+use crate::engine::enumerate::{multisets_first, par_parts, tuple_decode};
+use crate::engine::evidence::{Acc, Case, Report, Verdict};
+use crate::engine::monitor::{self, guard};
+use crate::oracle::cards::{is_card_word, show_words, sigma53, Card};
+use ckc_rs::cards::five::Five;
+use ckc_rs::cards::seven::Seven;
+use ckc_rs::cards::six::Six;
+use ckc_rs::cards::HandRanker;
+use ckc_rs::hand_rank::{HandRank, HandRankClass, HandRankName};
+use std::time::Instant;
+
+pub const MAX_PRODUCT: u64 = 41 * 41 * 41 * 41 * 37; // A A A A K
+
+pub const ENTRIES: [&str; 5] = ["hand_rank_value", "hand_rank", "hand_rank_value_and_hand", "hand_rank_value_validated", "hand_rank_validated"];
+
+/// result of one entry point, normalised: (value, rank-is-invalid-and-consistent)
+fn call(entry: &str, w: &[u32]) -> Option<(u16, bool)> {
+    fn hr(h: HandRank) -> (u16, bool) {
+        (h.value, h.is_invalid() && h.name == HandRankName::Invalid && h.class == HandRankClass::Invalid)
+    }
+    macro_rules! go {
+        ($h:expr) => {
+            Some(match entry {
+                "hand_rank_value" => ($h.hand_rank_value(), true),
+                "hand_rank" => hr($h.hand_rank()),
+                "hand_rank_value_and_hand" => ($h.hand_rank_value_and_hand().0, true),
+                "hand_rank_value_validated" => ($h.hand_rank_value_validated(), true),
+                "hand_rank_validated" => hr($h.hand_rank_validated()),
+                _ => return None,
+            })
+        };
+    }
+    match w.len() {
+        5 => go!(Five::from([w[0], w[1], w[2], w[3], w[4]])),
+        6 => go!(Six::from([w[0], w[1], w[2], w[3], w[4], w[5]])),
+        7 => go!(Seven::from([w[0], w[1], w[2], w[3], w[4], w[5], w[6]])),
+        _ => None,
+    }
 }
-pub fn judge(_case: &Case) -> Verdict {
-    Verdict::NotJudged("not implemented".into())
+
+fn shape(w: &[u32]) -> &'static str {
+    let blank = w.contains(&0);
+    let dup = (0..w.len()).any(|i| w[i] != 0 && (0..i).any(|j| w[i] == w[j]));
+    match (blank, dup) {
+        (true, _) => "with-blank",
+        (false, true) => "repeated-card",
+        (false, false) => "distinct-cards",
+    }
+}
+
+/// Case kinds: "<five|six|seven>.<entry>" with card-or-blank words, and "find_in_products" with one key.
+pub fn judge(case: &Case) -> Verdict {
+    if case.kind == "find_in_products" {
+        let key = match case.words.first() {
+            Some(k) if *k <= usize::MAX as u64 => *k as usize,
+            _ => return Verdict::NotJudged("no key".into()),
+        };
+        return match guard(|| Five::find_in_products(key)) {
+            Err(p) => Verdict::Violated {
+                class: format!("panic:find_in_products:{}", if key < 48 { "key-below-smallest-product" } else if key as u64 > MAX_PRODUCT { "key-above-largest-product" } else { "key-in-range" }),
+                expected: format!("normal return for key {}", key),
+                observed: format!("panic: {}", p),
+            },
+            Ok(_) => Verdict::Holds,
+        };
+    }
+    let w = case.w32s();
+    let (size, entry) = match case.kind.split_once('.') {
+        Some(x) => x,
+        None => return Verdict::NotJudged("bad kind".into()),
+    };
+    let n = match AnyHand::size_of_name(size) {
+        Some(n) if n == w.len() && n >= 5 => n,
+        _ => return Verdict::NotJudged("size/word count mismatch".into()),
+    };
+    if !w.iter().all(|x| *x == 0 || is_card_word(*x)) {
+        return Verdict::NotJudged("a slot holds neither a real card nor blank: outside C05's domain".into());
+    }
+    let validated = entry.contains("validated");
+    match guard(|| call(entry, &w)) {
+        Err(p) => Verdict::Violated {
+            class: format!("panic:{}-slot:{}:{}", size, shape(&w), if validated { "validated" } else { "unvalidated" }),
+            expected: format!("normal return of {} on [{}]", case.kind, show_words(&w)),
+            observed: format!("panic: {}", p),
+        },
+        Ok(None) => Verdict::NotJudged("unknown entry".into()),
+        Ok(Some((v, inv))) => {
+            if n == 5 && w.contains(&0) && (v != 0 || !inv) {
+                Verdict::Violated {
+                    class: format!("real-rank-for-blank-five:{}", if validated { "validated" } else { "unvalidated" }),
+                    expected: format!("value 0 and an Invalid rank for [{}]", show_words(&w)),
+                    observed: format!("value {} ({:?}), invalid-and-consistent={}", v, HandRank::from(v).class, inv),
+                }
+            } else {
+                Verdict::Holds
+            }
+        }
+    }
+}
+
+const H_BLANKS: usize = 0; // 0..=7 blanks
+const H_DUP: usize = 8;
+const H_FLUSH: usize = 9;
+const H_UNIQUE5: usize = 10;
+const H_PRODUCT: usize = 11;
+const H_NT: usize = 12; // bases containing a blank or a repeated card
+const H_LEN: usize = 13;
+
+fn classify_path(acc: &mut Acc, w: &[u32]) {
+    let blanks = w.iter().filter(|x| **x == 0).count();
+    acc.hist[H_BLANKS + blanks] += 1;
+    let dup = (0..w.len()).any(|i| w[i] != 0 && (0..i).any(|j| w[i] == w[j]));
+    if dup {
+        acc.hist[H_DUP] += 1;
+    }
+    if dup || blanks > 0 {
+        acc.hist[H_NT] += 1;
+    }
+    if w.len() == 5 {
+        // which evaluation path the input exercises, classified from the input (not by instrumenting the crate)
+        let same_suit = blanks == 0 && w.iter().all(|x| (x >> 12) & 15 == (w[0] >> 12) & 15);
+        let ranks: u32 = w.iter().fold(0, |m, x| m | (x >> 16));
+        if same_suit {
+            acc.hist[H_FLUSH] += 1;
+        } else if ranks.count_ones() == 5 {
+            acc.hist[H_UNIQUE5] += 1;
+        } else {
+            acc.hist[H_PRODUCT] += 1;
+        }
+    }
+}
+
+/// fast path for one ordered array; returns false when something needs the slow path
+#[inline]
+fn fast(w: &[u32], entries: usize) -> bool {
+    let need_zero = w.len() == 5 && w.contains(&0);
+    for e in ENTRIES.iter().take(entries) {
+        match call(e, w) {
+            Some((v, inv)) => {
+                if need_zero && (v != 0 || !inv) {
+                    return false;
+                }
+            }
+            None => return false,
+        }
+    }
+    true
+}
+
+fn check_orders(acc: &mut Acc, kind: usize, base: &[u32], orders: &[Vec<usize>], entries: usize) {
+    let n = base.len();
+    let mut w = vec![0u32; n];
+    let mut w64 = [0u64; 7];
+    classify_path(acc, base);
+    for ord in orders {
+        for i in 0..n {
+            w[ord[i]] = base[i];
+            w64[ord[i]] = base[i] as u64;
+        }
+        monitor::beat(kind, &w64[..n]);
+        acc.cases += 1;
+        acc.calls += entries as u64;
+        if !matches!(guard(|| fast(&w, entries)), Ok(true)) {
+            let size = AnyHand::size_name(n);
+            let mut found = false;
+            for e in ENTRIES.iter().take(entries) {
+                if let Some(v) = super::confirm(judge, Case::w32(&format!("{}.{}", size, e), &w)) {
+                    found = true;
+                    acc.violate(v);
+                }
+            }
+            if !found {
+                monitor::machinery_fail(&format!("C05 fast path problem on {:?} not reproduced by the judge", w));
+            }
+        }
+    }
+}
+
+fn rotations(n: usize) -> Vec<Vec<usize>> {
+    (0..n).map(|b| (0..n).map(|x| (x + b) % n).collect()).collect()
+}
+
+fn sub_alphabet(k: usize) -> Vec<u32> {
+    // blank first, then cards chosen to contain suited runs, pairs, trips, quads and wheels
+    let c = |r: u8, s: u8| Card::new(r, s).word();
+    let list = [
+        0,
+        c(12, 3), c(11, 3), c(10, 3), c(9, 3), c(8, 3), c(7, 3), // A K Q J T 9 of spades
+        c(12, 2), c(11, 2), c(12, 1), c(12, 0), // more aces and a king
+        c(3, 0), c(2, 0), c(1, 0), c(0, 0), // 5 4 3 2 of clubs
+        c(0, 1), c(0, 2), c(5, 1), c(6, 2), c(7, 0),
+    ];
+    list[..k].to_vec()
+}
+
+pub fn run(ctx: &Ctx, rep: &mut Report) {
+    let thorough = ctx.tier.thorough();
+    let kind5 = monitor::kind_id("five.*");
+
+    // (1) five slots
+    if !thorough {
+        let t0 = Instant::now();
+        let mut orders = vec![(0..5).collect::<Vec<usize>>(), (0..5).rev().collect()];
+        for b in [1usize, 2, 3] {
+            orders.push((0..5).map(|x| (x + b) % 5).collect());
+        }
+        let accs = par_parts(53, |first| {
+            let mut acc = Acc::new(H_LEN);
+            multisets_first(53, 5, first, &mut |idx| {
+                let base = [sigma53(idx[0]), sigma53(idx[1]), sigma53(idx[2]), sigma53(idx[3]), sigma53(idx[4])];
+                check_orders(&mut acc, kind5, &base, &orders, 5);
+            });
+            acc
+        });
+        let mut acc = Acc::merged(accs);
+        acc.nontrivial = 5 * acc.hist[H_NT];
+        hist_out(rep, "five-slot multisets:", &acc);
+        rep.guard("five-slot multisets: 4,187,106 multisets, every blank count 0..=5 present", acc.hist[H_BLANKS..H_BLANKS + 6].iter().sum::<u64>() == 4_187_106 && (0..6).all(|b| acc.hist[H_BLANKS + b] > 0), format!("{:?}", &acc.hist[..6]));
+        rep.guard("five-slot multisets: flush / five-distinct-ranks / product-search inputs all present", acc.hist[H_FLUSH] > 0 && acc.hist[H_UNIQUE5] > 0 && acc.hist[H_PRODUCT] > 0, format!("{:?}", &acc.hist[H_FLUSH..H_NT]));
+        rep.add_space("five-slot multisets over S53 x 5 orders x 5 entry points", &acc, t0, "all 4,187,106 multisets of {52 cards, blank}; canonical, reverse and three rotations");
+    } else {
+        let t0 = Instant::now();
+        let total = 53u64.pow(5);
+        let nparts = 53 * 53;
+        let ident = vec![(0..5).collect::<Vec<usize>>()];
+        let accs = par_parts(nparts, |p| {
+            let mut acc = Acc::new(H_LEN);
+            let lo = total * p as u64 / nparts as u64;
+            let hi = total * (p as u64 + 1) / nparts as u64;
+            let mut idx = [0usize; 5];
+            for t in lo..hi {
+                tuple_decode(t, 53, &mut idx);
+                let base = [sigma53(idx[0]), sigma53(idx[1]), sigma53(idx[2]), sigma53(idx[3]), sigma53(idx[4])];
+                check_orders(&mut acc, kind5, &base, &ident, 5);
+            }
+            acc
+        });
+        let mut acc = Acc::merged(accs);
+        acc.nontrivial = acc.hist[H_NT];
+        hist_out(rep, "five-slot arrays:", &acc);
+        rep.guard("five-slot arrays: 53^5 arrays", acc.cases == total, format!("{}", acc.cases));
+        rep.add_space("all 53^5 ordered five-slot arrays x 5 entry points", &acc, t0, "the complete five-slot domain of the property");
+    }
+
+    // (2) six and seven slots
+    for n in [6usize, 7] {
+        let t0 = Instant::now();
+        let kind = monitor::kind_id(&format!("{}.*", AnyHand::size_name(n)));
+        let rots = rotations(n);
+        let (alpha, name): (Vec<u32>, String) = if thorough {
+            ((0..53).map(|i| sigma53((i + 52) % 53)).collect(), format!("all {}-slot multisets over S53 x {} rotations x 5 entry points", n, n))
+        } else {
+            let k = if n == 6 { 20 } else { 14 };
+            (sub_alphabet(k), format!("{}-slot multisets over a {}-symbol sub-alphabet x {} rotations x 5 entry points", n, k, n))
+        };
+        let m = alpha.len();
+        // partition by the first two elements for balance
+        let mut parts = Vec::new();
+        for a in 0..m {
+            for b in a..m {
+                parts.push((a, b));
+            }
+        }
+        let accs = par_parts(parts.len(), |p| {
+            let (a, b) = parts[p];
+            let mut acc = Acc::new(H_LEN);
+            let mut idx = vec![0usize; n];
+            idx[0] = a;
+            idx[1] = b;
+            fn rec(pos: usize, n: usize, m: usize, idx: &mut Vec<usize>, f: &mut dyn FnMut(&[usize])) {
+                if pos == n {
+                    f(idx);
+                    return;
+                }
+                for v in idx[pos - 1]..m {
+                    idx[pos] = v;
+                    rec(pos + 1, n, m, idx, f);
+                }
+            }
+            let mut base = vec![0u32; n];
+            rec(2, n, m, &mut idx, &mut |ix| {
+                for i in 0..n {
+                    base[i] = alpha[ix[i]];
+                }
+                check_orders(&mut acc, kind, &base, &rots, 5);
+            });
+            acc
+        });
+        let mut acc = Acc::merged(accs);
+        acc.nontrivial = n as u64 * acc.hist[H_NT];
+        hist_out(rep, &format!("{}-slot multisets:", n), &acc);
+        let expect = crate::engine::enumerate::choose((m + n - 1) as u64, n as u64);
+        rep.guard(&format!("{}-slot multisets: count equals C({}+{}-1,{})", n, m, n, n), acc.hist[H_BLANKS..H_BLANKS + 8].iter().sum::<u64>() == expect, format!("{} vs {}", acc.hist[H_BLANKS..H_BLANKS + 8].iter().sum::<u64>(), expect));
+        rep.guard(&format!("{}-slot multisets: every blank count 0..={} present", n, n), (0..=n).all(|b| acc.hist[H_BLANKS + b] > 0), format!("{:?}", &acc.hist[..8]));
+        rep.add_space(&name, &acc, t0, "with repetition; every rotation so that a blank / repeated card visits every slot");
+    }
+
+    // (3) the public product-search helper, every key
+    {
+        let t0 = Instant::now();
+        let kind = monitor::kind_id("find_in_products");
+        let top = MAX_PRODUCT + 1;
+        let nparts = 2048u64;
+        let accs = par_parts(nparts as usize, |p| {
+            let mut acc = Acc::new(3);
+            let lo = (top + 1) * p as u64 / nparts;
+            let hi = (top + 1) * (p as u64 + 1) / nparts;
+            let mut last_idx = usize::MAX;
+            for key in lo..hi {
+                monitor::beat(kind, &[key]);
+                acc.cases += 1;
+                acc.calls += 1;
+                match guard(|| Five::find_in_products(key as usize)) {
+                    Ok(i) => {
+                        if i != last_idx {
+                            acc.hist[0] += 1; // distinct results within this block
+                            last_idx = i;
+                        }
+                        if i != 0 {
+                            acc.hist[1] += 1; // keys reported as found at a non-zero index
+                        }
+                    }
+                    Err(_) => acc.violate(confirm_mismatch(judge, Case::new("find_in_products", &[key]))),
+                }
+            }
+            acc
+        });
+        let mut acc = Acc::merged(accs);
+        for key in [1u64 << 31, (1 << 32) - 1, 1 << 32, 1 << 63, u64::MAX - 1, u64::MAX, MAX_PRODUCT + 2, MAX_PRODUCT * 2] {
+            monitor::beat(kind, &[key]);
+            acc.cases += 1;
+            acc.calls += 1;
+            if guard(|| Five::find_in_products(key as usize)).is_err() {
+                acc.violate(confirm_mismatch(judge, Case::new("find_in_products", &[key])));
+            }
+        }
+        acc.nontrivial = acc.hist[1] + 48; // keys that are products (found) + the keys below the smallest product
+        rep.hist_add("find_in_products:keys_found_at_nonzero_index", acc.hist[1]);
+        rep.guard("find_in_products: the sweep reaches found and not-found keys", acc.cases > MAX_PRODUCT, format!("{} keys", acc.cases));
+        rep.sample(sample_json("find_in_products", "key 48 (2*2*2*2*3), key 0, key 104553157", &format!("{:?}", (guard(|| Five::find_in_products(48)), guard(|| Five::find_in_products(0)), guard(|| Five::find_in_products(MAX_PRODUCT as usize))))));
+        rep.add_space("find_in_products: every key 0..=104,553,158 + boundary keys", &acc, t0, "every key up to the largest product + 1; above it the helper only ever compares key > product");
+    }
+    rep.sample(sample_json("five.hand_rank (blank in slot 3)", &show_words(&[sigma53(0), sigma53(1), 0, sigma53(3), sigma53(4)]), &format!("{:?}", guard(|| Five::from([sigma53(0), sigma53(1), 0, sigma53(3), sigma53(4)]).hand_rank()))));
+    rep.sample(sample_json("five.hand_rank_value (default hand)", "__ __ __ __ __", &format!("{:?}", guard(|| Five::default().hand_rank_value()))));
+    rep.rule = "distinct ordered card-or-blank arrays (and distinct search keys); non-trivial = arrays containing a blank or a repeated card (inputs no ranking test exercises), and for the helper the keys that are products or lie below the smallest product".into();
+    rep.bound = if thorough {
+        "five slots: complete (53^5 ordered arrays). six/seven slots: all multisets over S53 in all rotations (not all orders). helper: every key up to max product + 1 plus boundary keys".into()
+    } else {
+        "five slots: all multisets x 5 orders. six/seven slots: all multisets over 20-/14-symbol sub-alphabets x rotations. helper: every key up to max product + 1 plus boundary keys".into()
+    };
+    rep.assume("a hang is detected by the per-worker watchdog (no progress for CKC_MC_HANG_SECS, default 90 s, inside one published case)");
+}
+
+fn hist_out(rep: &mut Report, pre: &str, acc: &Acc) {
+    for b in 0..8 {
+        if acc.hist[H_BLANKS + b] > 0 {
+            rep.hist_add(&format!("{}hands_with_{}_blanks", pre, b), acc.hist[H_BLANKS + b]);
+        }
+    }
+    rep.hist_add(&format!("{}hands_with_repeated_card", pre), acc.hist[H_DUP]);
+    if acc.hist[H_FLUSH] + acc.hist[H_UNIQUE5] + acc.hist[H_PRODUCT] > 0 {
+        rep.hist_add(&format!("{}input_class_flush_lookup", pre), acc.hist[H_FLUSH]);
+        rep.hist_add(&format!("{}input_class_five_distinct_ranks_lookup", pre), acc.hist[H_UNIQUE5]);
+        rep.hist_add(&format!("{}input_class_product_search", pre), acc.hist[H_PRODUCT]);
+    }
 }
